@@ -175,7 +175,7 @@ func runProperty(w *World, prop, tier, vdir string, start time.Time, writeBaseli
 		resultCache[key] = r
 		rs = append(rs, r)
 	}
-	quickT, fullT := 3*time.Second, 25*time.Second
+	quickT, fullT := 6*time.Second, 25*time.Second
 	if tier == "thorough" {
 		quickT, fullT = 5*time.Second, 60*time.Second
 	}
@@ -201,7 +201,7 @@ func runProperty(w *World, prop, tier, vdir string, start time.Time, writeBaseli
 			}
 		}
 	}
-	discharge(rs, 16, quickT, fullT)
+	discharge(rs, 8, quickT, fullT)
 	known := loadKnown(filepath.Join(vdir, "KNOWN_FINDINGS.txt"))
 
 	if writeBaseline {
